@@ -110,6 +110,8 @@ class Interp:
         self.cur = "?"
         self.symctr = 0
         self.declared = set()
+        self.cur_pos = None            # (fn name, block, statement index) being executed
+        self.casts = {}                # narrowing integer casts: pos -> {lossless, seen, from, to}
 
     # ------------------------------------------------------------------ symbols
     def newsym(self, st, hint, lo=0, hi=U64MAX):
@@ -373,7 +375,16 @@ class Interp:
             ty = r["ty"]
             if r["ck"] == "IntToInt" and a[0] == "int" and is_int_ty(ty):
                 lo, hi = TYPE_RANGE[ty]
-                if st.store.entails(a[1].addc(-hi)) and st.store.entails(Lin.const(lo).sub(a[1])):
+                fits = st.store.entails(a[1].addc(-hi)) and st.store.entails(Lin.const(lo).sub(a[1]))
+                src_ty = (r["a"].get("p") or {}).get("ty") or r["a"].get("ty") or ""
+                if src_ty in TYPE_RANGE and (TYPE_RANGE[src_ty][1] > hi or TYPE_RANGE[src_ty][0] < lo) and self.cur_pos is not None:
+                    rec = self.casts.setdefault(self.cur_pos, {"lossless": True, "seen": 0, "from": src_ty, "to": ty, "detail": ""})
+                    rec["seen"] += 1
+                    if not fits:
+                        if rec["lossless"]:
+                            rec["detail"] = "value %s not shown to fit %s [context: %s]" % (a[1], ty, " > ".join(self.stack[-3:]))
+                        rec["lossless"] = False
+                if fits:
                     return a
                 return self.fresh_int(st, ty, "cast")
             if r["ck"] == "IntToInt" and a[0] == "bool" and is_int_ty(ty):
